@@ -114,6 +114,30 @@ void h_merge_sort_key(void) {             /* comparator and key procedure, a col
 }
 #endif
 
+/* (sort! vec >): the built-in comparison with an inverse opcode (>), no key - the fast path sorts ascending and reverses */
+static struct sexp_struct inv_op;
+void h_sort_x_inverse(void) {
+  sexp ctx; setup(&ctx);
+  inv_op.tag = SEXP_OPCODE; verif_register(&inv_op);
+  sexp_opcode_class((sexp)&inv_op) = SEXP_OPC_ARITHMETIC_CMP; sexp_opcode_inverse((sexp)&inv_op) = 1; sexp_opcode_code((sexp)&inv_op) = SEXP_OP_LT;
+  sexp r = sexp_sort_x(ctx, SEXP_FALSE, 3, (sexp)&in_vec, (sexp)&inv_op, SEXP_FALSE);
+  OBL(sexp_vectorp(r) && sexp_vector_length(r) == N, "sort_x.result: a vector of the input length");
+  if (sexp_vectorp(r) && sexp_vector_length(r) == N) {
+    sexp *out = sexp_vector_data(r); int seen[6] = {0};
+    for (int p = 0; p < N; p++) { int k = idx_of(out[p]); OBL(k >= 0, "sort.permutation_members: every output element is an input element"); if (k >= 0) seen[k]++; }
+    for (int k = 0; k < N; k++) OBL(seen[k] == 1, "sort.permutation: every input element occurs exactly once in the output");
+    for (int p = 0; p + 1 < N; p++) {
+      int a = idx_of(out[p]), b = idx_of(out[p + 1]);
+      if (a >= 0 && b >= 0) {
+        OBL(in_key[a] >= in_key[b], "sort.ordered_desc: with > the output is in non-increasing order");
+        OBL(in_key[a] != in_key[b] || a < b, "sort.stable: equal elements keep their input order (also when sorting with >)");
+      }
+    }
+  }
+  OBL(sexp_context_saves(ctx) == NULL, "gc.release: preserve chain restored");
+  REACH();
+}
+
 void h_sort_x(void) {                      /* the API entry: (sort! vec less) */
   sexp ctx; setup(&ctx);
   sexp r = sexp_sort_x(ctx, SEXP_FALSE, 3, (sexp)&in_vec, (sexp)&less_obj, SEXP_FALSE);
